@@ -214,16 +214,26 @@ static void config_case(uint32_t k, uint32_t r, uint32_t N1, uint32_t seed, int 
 	if (g_for15 && !(N1 & 1) && k + r <= 3000 && have_bb) {
 		/* the claim over the life of a decoder session: every repair symbol and no source (iterative decoding stalls, of_finish_decoding
 		 * goes through Gaussian elimination and releases the matrix), then a second one with everything but one source */
-		cfg_t c2 = c; c2.L = 4; block_t b; const char *sv = g_prop; g_prop = "";
+		cfg_t c2 = c; c2.L = LENS[rng_below(rng, 5)] + 8 * rng_below(rng, 4); block_t b; const char *sv = g_prop; g_prop = "";
 		int rc = block_build(&b, &c2, PAY_RANDOM, rng, 0, -1); g_prop = sv;
 		if (rc == 0) {
 			uint32_t *sub = malloc((size_t)(k + r + 1) * sizeof *sub), m = 0;
 			for (uint32_t e = k; e < k + r; e++) sub[m++] = e;
 			hist_t h1 = { (int)rng_below(rng, 2), 1, 0, (int)rng_below(rng, 2), 0, m, sub, (int)(k + r), 0, 0 }; hres_t res;
-			run_history(&b, &h1, 0, &res);
+			run_history(&b, &h1, MON_C01, &res);
 			m = 0; for (uint32_t e = 1; e < k + r; e++) sub[m++] = e;
 			hist_t h2 = { 0, 1, 0, 0, 0, m, sub, (int)(k + r), 0, 0 };
-			run_history(&b, &h2, 0, &res);
+			run_history(&b, &h2, MON_C01, &res);
+			/* what a decoder that believes the claim does with it: one source lost, every other source received, and of the repair
+			 * symbols only ESI n-2 (the decoder supplies ESI n-1 itself): the source comes back through the last equation or not at all */
+			if ((ce == 1 || cd == 1) && r >= 2) for (uint32_t q = 0; q < (k <= 48 ? k : 12); q++) {
+				uint32_t lost = k <= 48 ? q : rng_below(rng, k); m = 0;
+				for (uint32_t e = 0; e < k; e++) if (e != lost) sub[m++] = e;
+				sub[m++] = k + r - 2;
+				hist_t h3 = { (int)(q & 1), (int)((q >> 1) & 1), 0, 0, 0, m, sub, (int)(k + r), 0, 0 };
+				run_history(&b, &h3, MON_C01, &res);
+				rep_count("last_equation_probes_under_a_true_claim", 1);
+			}
 			free(sub);
 		}
 		block_free(&b);
